@@ -101,7 +101,13 @@ def rand_uuid(rng):
 
 def rand_syntax(rng):
     from dpapi_ng._rpc import SyntaxId
-    return SyntaxId(rand_uuid(rng), rng.choice([0, 1, 2, 65535]), rng.choice([0, 1, 65535]))
+    import uuid as _uuid
+    # half of the identifiers come from a small pool (NDR, NDR64, ISD_KEY), so the same interface is seen again with another major /
+    # minor version — within one message and across decodes in one process
+    pool = [_uuid.UUID("8a885d04-1ceb-11c9-9fe8-08002b104860"), _uuid.UUID("71710533-beba-4937-8319-b5dbef9ccc36"),
+            _uuid.UUID("b9785960-524f-11df-8b6d-83dcded72085")]
+    u = rng.choice(pool) if rng.random() < 0.5 else rand_uuid(rng)
+    return SyntaxId(u, rng.choice([0, 1, 2, 65535]), rng.choice([0, 1, 2, 65535]))
 
 
 def rand_header(rng, ptype, flags=None, auth_len=0):
